@@ -949,8 +949,18 @@ func (e *c15Env) step(s c15Step) (evs []map[string]any, applied bool) {
 			e.pfGate = e.nextGate("layer.prefetch.fetched", c15Tick)
 		}
 		if !e.pfStall {
+			// no request is waiting: nothing had to be requested, or the registry is off and refused at once
 			e.reg.setMode(false, "pass")
-			ev["ev"], ev["r"], ev["want"] = "BlobCache", "ok", "ok"
+			ev["ev"], ev["r"], ev["want"] = "BlobCache", "hung", "ok"
+			e.reg.mu.Lock()
+			if e.reg.off {
+				ev["want"] = "fail"
+			}
+			e.reg.mu.Unlock()
+			if e.pfGate != nil {
+				err, _ := e.pfGate.kv[1].(error)
+				ev["r"] = c15Res(err)
+			}
 		}
 	case "BlobCache":
 		r, _ := s["r"].(string)
@@ -1245,6 +1255,12 @@ func c15Replay(sc *c15Scen, b *c15Built, store metadata.Store, storeName string,
 			continue
 		}
 		o := e.obs()
+		if o["wclosed"] == true && prev["wclosed"] == false {
+			// the waiter closed during this step: every waiting call returns; time-outs not yet collected go first
+			var more []map[string]any
+			e.pollWaiters(&more)
+			evs = append(more, evs...)
+		}
 		for _, ev := range evs {
 			if ev["spont"] == true {
 				// a timeout the driver did not ask for happened at some point during the step: it is placed before the
@@ -1264,7 +1280,13 @@ func c15Replay(sc *c15Scen, b *c15Built, store metadata.Store, storeName string,
 		}
 	}
 	out[0]["skipped"] = skipped
+	// the walk is over: whatever prefetch still has to do happens now, unobserved step by step but not unrecorded
+	inFlight := e.runner != 0 && e.pret[e.runner] != nil
+	e.reg.take(false)
 	e.finish()
+	if inFlight {
+		out = append(out, map[string]any{"ev": "Drain", "req": e.reg.take(false), "obs": e.obs()})
+	}
 	return out, nil
 }
 
